@@ -291,3 +291,72 @@ pub fn replay_triple(case: &Value, l: &mut Local) {
         l.violation("eq:not-transitive", "a==b, b==c but a!=c", || case.clone());
     }
 }
+
+/// All ordered pairs of labels through `Label`'s own eq / cmp / hash.
+pub fn run_label_pairs(ctx: &Ctx, labels: &[Vec<u8>]) {
+    use hickory_proto::rr::domain::Label;
+    let ls: Vec<(Label, u64)> = labels
+        .iter()
+        .filter_map(|b| Label::from_raw_bytes(b).ok())
+        .map(|l| {
+            let h = h64(&l);
+            (l, h)
+        })
+        .collect();
+    if ls.len() != labels.len() {
+        ctx.with_local(|l| l.violation("construct:label-from_raw_bytes-rejects-valid", "a 1..63 octet label was rejected", || json!({"family": "label-pair"})));
+        return;
+    }
+    let n = labels.len() as u64;
+    ctx.add_count("label_pairs", n * n);
+    ctx.par_run(n, 4, |i, l| {
+        let (a, ha) = &ls[i as usize];
+        let ra = &labels[i as usize];
+        for (j, (b, hb)) in ls.iter().enumerate() {
+            let rb = &labels[j];
+            let case = || json!({"family": "label-pair", "a": vcore::hex::enc(ra), "b": vcore::hex::enc(rb)});
+            let want_eq = vref::name::label_eq_fold(ra, rb);
+            let want = vref::name::label_cmp(ra, rb);
+            if (a == b) != want_eq {
+                l.violation(&format!("label-eq:got-{}", a == b), "Label == disagrees with ASCII-folded identity", case);
+            }
+            if want_eq && ha != hb {
+                l.violation("label-hash:differs-for-equal", "equal labels hash differently", case);
+            }
+            let got = a.cmp(b);
+            if got != want {
+                l.violation(&format!("label-cmp:got-{}-want-{}", ord_name(got), ord_name(want)), "Label::cmp disagrees with RFC 4034 6.1 label order", case);
+            }
+            if a.eq_ignore_ascii_case(b) != want_eq {
+                l.violation("label-eq_ignore_ascii_case", "disagrees with ASCII-folded identity", case);
+            }
+            if want_eq && ra != rb {
+                l.nontrivial(fnv64(ra).wrapping_mul(31) ^ fnv64(rb));
+            }
+        }
+        l.evals_add(n);
+    });
+}
+
+pub fn replay_label_pair(case: &Value, l: &mut Local) {
+    use hickory_proto::rr::domain::Label;
+    let ra = vcore::hex::dec(case["a"].as_str().unwrap_or("")).unwrap_or_default();
+    let rb = vcore::hex::dec(case["b"].as_str().unwrap_or("")).unwrap_or_default();
+    let (Ok(a), Ok(b)) = (Label::from_raw_bytes(&ra), Label::from_raw_bytes(&rb)) else { return };
+    l.eval();
+    let want_eq = vref::name::label_eq_fold(&ra, &rb);
+    let want = vref::name::label_cmp(&ra, &rb);
+    if (a == b) != want_eq {
+        l.violation(&format!("label-eq:got-{}", a == b), "Label == disagrees with ASCII-folded identity", || case.clone());
+    }
+    if want_eq && h64(&a) != h64(&b) {
+        l.violation("label-hash:differs-for-equal", "equal labels hash differently", || case.clone());
+    }
+    let got = a.cmp(&b);
+    if got != want {
+        l.violation(&format!("label-cmp:got-{}-want-{}", ord_name(got), ord_name(want)), "Label::cmp disagrees with RFC 4034 6.1 label order", || case.clone());
+    }
+    if a.eq_ignore_ascii_case(&b) != want_eq {
+        l.violation("label-eq_ignore_ascii_case", "disagrees with ASCII-folded identity", || case.clone());
+    }
+}
